@@ -324,6 +324,9 @@ func c44Reference(list, hostname string) string {
 // ---- one execution ----
 
 func c44Lookup(name string) e2.RunFn {
+	if strings.HasPrefix(name, "dual:") {
+		return c44DualLookup(name)
+	}
 	sc, ok := c44Parse(name)
 	if !ok {
 		return nil
@@ -477,6 +480,8 @@ func c44(c *report.Check) {
 		os.Exit(0)
 	}
 	scns := c44Scenarios(c.Thorough())
+	dual := c44DualScenarios(c.Thorough())
+	scns = append(scns, dual...)
 	tb := 2
 	if c.Thorough() {
 		tb = 3
@@ -496,7 +501,8 @@ func c44(c *report.Check) {
 	c.Set("evaluations", sum.Executions)
 	c.Set("distinct_nontrivial", len(sum.Outcomes))
 	c.Set("scenarios", len(scns))
-	c.Set("rule", fmt.Sprintf("%d scenarios = (old -> new tunnel lists: target changed, hostname removed/added, header option changed, TLS verification option changed, unrelated tunnel changed, removed then re-added, ...) x change applied by RebuildTunnels / SIGHUP reload / UnpublishTunnel x proxy cache warm or cold x 1-2 incoming connections; thread 'change' and thread 'conn' (real handleIncomingDelegation) under the cooperative scheduler with statement-level points in handleIncomingDelegation, RebuildTunnels, closeOutdatedProxies, tunnelRemovalWrapper, doReload, reloadFile, buildRouter and every configMu/syncMu operation; every schedule with at most %d deviations from the default schedule; after each execution a new HTTP connection per hostname is really forwarded (reverse proxy -> loopback backends A, B, TLS backend S) and compared with a fresh client that only ever had the final configuration; 'states' = distinct observable outcomes", len(scns), tb))
+	c.Set("scenarios_two_concurrent_changes", len(dual))
+	c.Set("rule", fmt.Sprintf("second family (%d scenarios): POST /unpublish or /release of a hostname (syncMu + UnpublishTunnel/ReleaseTunnel, stub RPC = scheduling point), or the periodic SyncConfigTunnels (-> RebuildTunnels) as thread A against doReload from a file edited beforehand (tunnel added above / removed above / reordered / added below / retargeted / unchanged / dropped) as thread B, optionally one incoming connection as a third thread; afterwards memory, saved file, router and proxy cache must be consistent, the final tunnel set must equal one of the two serial orders (run on fresh clients) and new connections must follow the final configuration. ", len(dual))+fmt.Sprintf("first family: %d scenarios = (old -> new tunnel lists: target changed, hostname removed/added, header option changed, TLS verification option changed, unrelated tunnel changed, removed then re-added, ...) x change applied by RebuildTunnels / SIGHUP reload / UnpublishTunnel x proxy cache warm or cold x 1-2 incoming connections; thread 'change' and thread 'conn' (real handleIncomingDelegation) under the cooperative scheduler with statement-level points in handleIncomingDelegation, RebuildTunnels, closeOutdatedProxies, tunnelRemovalWrapper, doReload, reloadFile, buildRouter and every configMu/syncMu operation; every schedule with at most %d deviations from the default schedule; after each execution a new HTTP connection per hostname is really forwarded (reverse proxy -> loopback backends A, B, TLS backend S) and compared with a fresh client that only ever had the final configuration; 'states' = distinct observable outcomes", len(scns)-len(dual), tb))
 	var samples []any
 	for i, s := range scns {
 		if i%(len(scns)/6+1) == 0 {
